@@ -11,6 +11,10 @@ virtual fields) — at every struct level.  Multi-line texts containing an array
 elements are only counted (open finding `multiline-array-elements-not-comma-separated`).
 `corpus/C06/*.emb` (hand-written dependency shapes, pinned inputs of repaired findings) run in
 both tiers.
+
+`# C06-PARTIAL struct=… buffer=… unreadable=… text=…` lines of a corpus file pin a buffer whose
+view is not Ok by content together with the hand-written expectation for
+WriteToString(view, options.WithAllowPartialOutput(true)): see run_partial_annotations.
 """
 import os
 import re
@@ -238,6 +242,8 @@ def crash_records(chk, binary, lines, res, origin, text, table):
                "observed": ["%s: %s" % (one.kind, one.err[-1500:])],
                "expected": "no sanitizer report / failed CHECK; every field after the fields it depends on"}
         rec.update(T.line_fields(bad))
+        if str(rec.get("struct", "")).startswith("P!"):
+            rec["struct"], rec["allow_partial_output"] = rec["struct"][2:], True      # pinned not-Ok buffer
         if bad:
             rec["parameters"] = [int(x) for x in bad.split(" ")[6:]]
             import re as _re
@@ -246,7 +252,7 @@ def crash_records(chk, binary, lines, res, origin, text, table):
                 rec["text"] = I.unhex(m.group(1))
                 try:
                     parsed, _ = T.parse_text(rec["text"])
-                    D.check_text(table, D.find_struct(table, bad.split(" ")[0]), parsed, "", rec["observed"])
+                    D.check_text(table, D.find_struct(table, rec["struct"]), parsed, "", rec["observed"])
                 except T.ParseError:
                     rec["observed"].append("text does not parse")
         chk.violation("input", rec)
